@@ -159,6 +159,9 @@ func (e *Engine) checkProperty(verif, prop, tier string, t0 time.Time) int {
 			if f.Kind == "finding" && f.Property == prop && f.Obligation != "" && strings.HasPrefix(obName, f.Obligation) && !strings.Contains(obName, "~outside-region") {
 				line := fmt.Sprintf("KNOWN-FINDING: property=%s %s [obligation %s]", prop, f.What, obName)
 				knownOut = append(knownOut, line)
+				// a listed finding is not part of the proof claim: the claim is the
+				// same obligation restricted to the outside of the finding's region
+				total--
 				return
 			}
 		}
@@ -268,6 +271,7 @@ func (e *Engine) checkProperty(verif, prop, tier string, t0 time.Time) int {
 		"solver_time_s":            round3(solverTotal),
 		"solver_time_max_s":        round3(solverMax),
 		"known_findings":           knownOut,
+		"known_finding_obligations": len(knownOut),
 		"bounded_standins":         p.Bounded,
 		"not_decided":              p.NotDecided,
 		"houdini_candidates":       candTotal,
